@@ -73,6 +73,10 @@ class World(object):
                     "rhsm": str(uuid.UUID(int=rng.getrandbits(128), version=4))}
         self.tok = dict((v, k) for k, v in self.ids.items())
         self.upper = rng.random() < 0.5
+        self.rng = rng
+        # a dangling link points either to a missing file in an existing directory or to a path whose
+        # directory does not exist either (decided per marker location from the seed)
+        self.deep = dict(((d, m), rng.random() < 0.5) for d in DIRS for m in MARKS)
         self.rhsm_kind = case["init"]["rhsm"]
         self.rhsm_raw = self.spell_rhsm(self.rhsm_kind, rng)
         self.idfile = os.path.join(self.dirs["main"], "machine-id")
@@ -102,6 +106,8 @@ class World(object):
                 text = text.upper() if self.upper else text
             elif f["form"] == "newline":
                 text = text + "\n"
+            elif f["form"] == "spaced":
+                text = rng.choice([" ", "\t", "  "]) + text + rng.choice([" ", "  ", " \n", "\t"])
             elif f["form"] == "empty":
                 text = ""
             with open(self.idfile, "w") as fh:
@@ -138,7 +144,12 @@ class World(object):
         return os.path.join(self.outside, "%s-%s-live" % (d, m))
 
     def dead(self, d, m):
+        if self.deep[(d, m)]:
+            return os.path.join(self.outside, "nodir-%s-%s" % (d, m), "dead")
         return os.path.join(self.outside, "%s-%s-dead" % (d, m))
+
+    def dead_paths(self, d, m):
+        return [os.path.join(self.outside, "%s-%s-dead" % (d, m)), os.path.join(self.outside, "nodir-%s-%s" % (d, m))]
 
     def live_text(self, d, m):
         return "TARGET %s %s - must stay as it is\n" % (d, m)
@@ -152,8 +163,11 @@ class World(object):
             with open(p, "w") as f:
                 f.write(self.live_text(d, m))
             os.utime(p, ns=(SENT_NS, SENT_NS))
-        if os.path.lexists(self.dead(d, m)):
-            os.remove(self.dead(d, m))
+        for p in self.dead_paths(d, m):
+            if os.path.isdir(p) and not os.path.islink(p):
+                shutil.rmtree(p)
+            elif os.path.lexists(p):
+                os.remove(p)
 
     def live_state(self, d, m):
         """absent / intact / changed: size and the sentinel mtime first, the bytes only if those look untouched."""
@@ -178,6 +192,8 @@ class World(object):
             os.symlink(self.live(d, m), p)
         elif k == "dangling":
             os.symlink(self.dead(d, m), p)
+            key = "dangling:target-directory-missing" if self.deep[(d, m)] else "dangling:target-file-missing"
+            self.stats[key] = self.stats.get(key, 0) + 1
         else:
             raise HarnessError("marker kind %r" % k)
         # R4 on the pristine world; inside a history the trace specification compares the planted
@@ -221,7 +237,7 @@ class World(object):
             for m in MARKS:
                 st[m][d] = kind_of(self.marker(d, m))
                 lk = self.live_state(d, m)
-                st["tgt"][d][m] = {"live": lk, "dead": "absent" if kind_of(self.dead(d, m)) == "absent" else "exists"}
+                st["tgt"][d][m] = {"live": lk, "dead": "exists" if any(os.path.lexists(p) for p in self.dead_paths(d, m)) else "absent"}
         k = kind_of(self.idfile)
         raw = ""
         if k == "absent":
@@ -287,7 +303,12 @@ class World(object):
             elif op == "Register":
                 utilities.write_registered_file()
             elif op == "Unregister":
-                utilities.write_unregistered_file()
+                # both entry points: the plain one and the explicit-date one (client.py, HTTP 412 handler)
+                if self.rng.random() < 0.5:
+                    step = dict(step, k="dated")
+                    utilities.write_unregistered_file(date="2001-01-01T00:00:00.000000")
+                else:
+                    utilities.write_unregistered_file()
             elif op == "DeleteMarker":
                 if step["m"] == "reg":
                     utilities.delete_registered_file()
